@@ -109,6 +109,7 @@ type RunResult struct {
 	Stats      *Stats
 	Bubble     rt.BubbleResult
 	Infra      string // non-empty: the harness itself had trouble (exit 2 material)
+	Stuck      bool   // the run never finished in real time: its goroutines are still around, no further run in this process
 }
 
 // Opts selects what is judged.
@@ -121,14 +122,15 @@ type Opts struct {
 
 // Exchange is one request as the handler saw it and what it answered.
 type Exchange struct {
-	Req        model.Request
-	Resp       model.Response
-	Skipped    string
-	Panic      string
-	BodyFailed bool // the body stream returned its injected error
-	BodyCut    bool // the body stream ended early with a clean EOF
-	BodyFault  *Fault
-	Delivered  int
+	Req          model.Request
+	Resp         model.Response
+	Skipped      string
+	Panic        string
+	BodyFailed   bool // the body stream returned its injected error
+	BodyCut      bool // the body stream ended early with a clean EOF
+	BodyFault    *Fault
+	Delivered    int
+	SilentCancel bool // the request context was cancelled while the body stream stayed healthy
 }
 
 type executor struct {
@@ -176,9 +178,26 @@ func Execute(t *testing.T, plan *Plan, opts Opts) *RunResult {
 		}()
 		ex.run()
 	})
-	simos.Hook = nil
-	if ex.w != nil {
-		ex.w.Close()
+	if !res.Bubble.Stuck {
+		simos.Hook = nil
+		if ex.w != nil {
+			ex.w.Close()
+		}
+	}
+	if res.Bubble.Stuck {
+		res.Stuck = true
+		res.Stats.Deadlocks++
+		lib := rt.LibraryGoroutines(res.Bubble.Stacks)
+		if len(lib) == 0 {
+			res.Infra = "the run made no progress for " + rt.StuckAfter.String() + " and no goroutine is inside the library:\n" + firstLines(res.Bubble.Stacks, 80)
+			return res
+		}
+		prop, clause := "C13", "no-response"
+		if plan.Property == "C14" {
+			prop, clause = "C14", "hang"
+		}
+		ex.finding(Violation{Prop: prop, Clause: clause, Class: "stuck", Msg: "the run made no progress for " + rt.StuckAfter.String() + " of real time; goroutines inside the library:\n" + firstLines(strings.Join(lib, "\n\n"), 60), Step: res.Stats.Steps})
+		return res
 	}
 	if res.Bubble.Deadlock || res.Bubble.Leftover {
 		res.Stats.Deadlocks++
@@ -200,6 +219,11 @@ func firstLines(s string, n int) string {
 
 // finding routes a finding: own property -> violation, else counted.
 func (ex *executor) finding(v Violation) {
+	if ex.opts.Own == "C05" && v.Prop == "C01" && ex.plan.Profile == "api-clients" {
+		// C05: "tree effects as in C01" - what the client's requests did to the
+		// store is judged by the same model
+		v.Prop, v.Clause = "C05", "effect:"+v.Clause
+	}
 	if ex.opts.Own == "" || v.Prop == ex.opts.Own {
 		ex.res.Violations = append(ex.res.Violations, v)
 		ex.log.Addf("VIOLATION %s", firstLines(v.String(), 1))
@@ -413,6 +437,7 @@ func (ex *executor) serve(idx int, st *Step) *Exchange {
 	xc.BodyCut = body.CutClean
 	xc.BodyFault = bf
 	xc.Delivered = body.Delivered()
+	xc.SilentCancel = body.SilentCancel()
 	xc.Req.BodyBroken = body.Failed
 	if body.CutClean {
 		// the server saw a shorter, clean stream: that is what was "sent"
@@ -448,7 +473,7 @@ func (ex *executor) rawStep(idx int, st *Step) {
 	for _, f := range ex.seam.Fired {
 		ex.res.Stats.FaultsFired["disk:"+f.Kind]++
 	}
-	if xc.BodyFailed || xc.BodyCut {
+	if xc.BodyFailed || xc.BodyCut || xc.SilentCancel {
 		ex.res.Stats.FaultsFired["req-body:"+xc.BodyFault.Kind]++
 	}
 	ex.log.Addf("  -> %d %v body=%q", xc.Resp.Status, sortedHeader(xc.Resp.H), clipS(canonBody(&xc.Resp), 300))
@@ -933,6 +958,11 @@ func leakContext(r *model.Response, leak string) string {
 // of C04: MatchETag is true exactly for "*" or an equal tag against an existing
 // resource.
 func (ex *executor) checkHelper(idx int, class string, xc *Exchange) {
+	defer func() {
+		if r := recover(); r != nil {
+			ex.finding(Violation{Prop: "C04", Clause: "helper-disagrees", Class: class, Msg: fmt.Sprintf("a ConditionalMatch helper panicked on If-Match %q / If-None-Match %q: %v", xc.Req.H["If-Match"], xc.Req.H["If-None-Match"], r), Step: idx})
+		}
+	}()
 	cur := ex.curTag // wire form: a quoted string, or "" when there is no file
 	plain := ""
 	simple := false
